@@ -61,6 +61,8 @@ func sortStrings(a []string) {
 type ReprOpts struct {
 	NoNumberSpellings bool // json.Number keeps its original spelling only
 	NoNamedKeys       bool
+	NoTyped           bool // containers hold `any` elements only (no []int, map[string]int, ...)
+	NoArrays          bool // no Go arrays ([N]T): as a decode target they silently truncate
 }
 
 // numberReprs lists every exact Go representation of the number n (given by its JSON text).
@@ -304,12 +306,12 @@ func commonType(r *rand.Rand, model []any, els []any, o ReprOpts) (reflect.Type,
 
 func listOf(r *rand.Rand, model, els []any, o ReprOpts, t *ReprTrace) any {
 	mode := r.IntN(10)
-	if mode >= 5 { // typed container
+	if mode >= 5 && !o.NoTyped { // typed container
 		if ty, vals := commonType(r, model, els, o); ty != nil {
 			if vals == nil {
 				vals = els
 			}
-			if mode >= 8 {
+			if mode >= 8 && !o.NoArrays {
 				a := reflect.New(reflect.ArrayOf(len(vals), ty)).Elem()
 				for i, e := range vals {
 					setElem(a.Index(i), e)
@@ -324,6 +326,9 @@ func listOf(r *rand.Rand, model, els []any, o ReprOpts, t *ReprTrace) any {
 			t.note("slice[" + ty.Kind().String() + "]")
 			return s.Interface()
 		}
+	}
+	if o.NoArrays && mode == 0 {
+		mode = 2
 	}
 	switch mode {
 	case 0:
@@ -368,7 +373,7 @@ func mapOf(r *rand.Rand, model, els map[string]any, o ReprOpts, t *ReprTrace) an
 		}
 		return m.Interface()
 	}
-	if mode >= 6 {
+	if mode >= 6 && !o.NoTyped {
 		keys := make([]string, 0, len(model))
 		for k := range model {
 			keys = append(keys, k)
